@@ -431,6 +431,8 @@ def check_crop_mask(ctx: Ctx):
                     flat += p.parts
                 elif isinstance(p, AMask):
                     flat.append(p)
+                elif isinstance(p, AArr) and not p.casts:
+                    flat.append(AMask(p, "nonzero"))  # logical operators test truthiness: non-zero
                 else:
                     return None
             return _UnionMask(flat)
